@@ -60,9 +60,9 @@ type verifRow struct {
 }
 
 const (
-	verifNPK      = 4
-	verifNIX      = 3
-	verifFaultMsg = "VERIFFAULT injected"
+	verifNPK       = 4
+	verifNIX       = 3
+	verifFaultMsg  = "VERIFFAULT injected"
 	verifDeviation = 0.05 // cache.expireDeviation (unexported there; tied to the statement by C06.Link)
 )
 
@@ -87,11 +87,11 @@ func (s *verifSource) Int63() int64 {
 func (s *verifSource) Seed(int64) {}
 
 var (
-	verifOnce   sync.Once
-	verifSrv    *miniredis.Miniredis
-	verifMu     sync.Mutex
+	verifOnce              sync.Once
+	verifSrv               *miniredis.Miniredis
+	verifMu                sync.Mutex
 	verifG, verifS, verifD bool
-	verifCaseNo int
+	verifCaseNo            int
 )
 
 func verifSetFaults(g, s, d bool) {
